@@ -24,12 +24,71 @@ def load_inventory():
         return json.load(f)
 
 
+_SUBST = [None]   # const-generic substitution of the splice in progress: {param name: python value or ('param', name)}
+
+
+def _split_args(txt):
+    txt = (txt or "").strip()
+    if txt.startswith("[") and txt.endswith("]"):
+        txt = txt[1:-1]
+    out, cur, d = [], "", 0
+    for ch in txt:
+        if ch in "<([{":
+            d += 1
+        elif ch in ">)]}":
+            d -= 1
+        if ch == "," and d == 0:
+            out.append(cur.strip())
+            cur = ""
+        else:
+            cur += ch
+    if cur.strip():
+        out.append(cur.strip())
+    return out
+
+
+def const_generic_subst(callee, fn_args):
+    """{const param name: value} for a call `callee::<..>` from the Debug text of its generic arguments."""
+    gens = callee.get("generics") or []
+    toks = _split_args(fn_args)
+    nl = [g for g in gens if g.get("kind") != "lifetime"]
+    use = gens if len(toks) == len(gens) else (nl if len(toks) == len(nl) else None)
+    if use is None:
+        return {}
+    out = {}
+    for g, tok in zip(use, toks):
+        if g.get("kind") != "const":
+            continue
+        if tok in ("true", "false"):
+            out[g["name"]] = (tok == "true")
+        elif tok.lstrip("-").isdigit():
+            out[g["name"]] = int(tok)
+        else:
+            nm = tok.split("/#")[0].strip()
+            if nm.isidentifier():
+                out[g["name"]] = ("param", nm)
+    return out
+
+
 def _remap(o, loff, boff, poff, callee_path, unwind_to):
     """Deep copy of a JSON fragment of the callee with locals/blocks/promoteds renumbered."""
     if isinstance(o, list):
         return [_remap(x, loff, boff, poff, callee_path, unwind_to) for x in o]
     if not isinstance(o, dict):
         return o
+    sub = _SUBST[0]
+    if sub and "param" in o and o.get("param") in sub and "ty" in o:
+        v = sub[o["param"]]
+        if isinstance(v, tuple):
+            return dict(o, param=v[1], text=v[1])
+        return {"ty": o["ty"], "text": str(v).lower(), "val": v}
+    if sub and o.get("k") == "call" and isinstance(o.get("fn_args"), str):
+        txt = o["fn_args"]
+        import re as _re
+        for nm, v in sub.items():
+            rep = (v[1] + "/#0") if isinstance(v, tuple) else str(v).lower()
+            txt = _re.sub(r"\b%s/#\d+" % _re.escape(nm), rep, txt)
+        o = dict(o, fn_args=txt)
     if "l" in o and "p" in o and len(o) == 2:  # place
         np = []
         for e in o["p"]:
@@ -76,6 +135,7 @@ def splice(body, bi, callee, closure_call=False):
     boff = len(blocks)
     poff = len(body.get("promoted") or [])
     unwind_to = term.get("unwind", "continue")
+    _SUBST[0] = const_generic_subst(callee, term.get("fn_args")) if not closure_call else None
     body["locals"].extend(copy.deepcopy(callee["locals"]))
     if callee.get("promoted"):
         body.setdefault("promoted", []).extend(copy.deepcopy(callee["promoted"]))
@@ -119,6 +179,7 @@ def splice(body, bi, callee, closure_call=False):
         for i, a in enumerate(args):
             blocks[bi]["stmts"].append({"k": "assign", "line": line, "exp": False, "inl_arg": True,
                                         "lhs": {"l": loff + 1 + i, "p": []}, "rv": {"use": copy.deepcopy(a)}})
+    _SUBST[0] = None
     blocks[bi]["inlined_call"] = {"callee": callee["path"], "line": line, "entry": boff}
     blocks[bi]["term"] = {"k": "goto", "line": line, "col": term.get("col", 0), "exp": term.get("exp", False), "target": boff}
 
